@@ -113,6 +113,7 @@ def total_on(pp, expr, s, timeout=2.0):
             common.with_alarm(timeout, th)
         except common.CaseTimeout:
             to += 1
+            break  # the remaining entry points run the same loop
         except pp.ParseBaseException as ex:
             for p in check_exception(pp, ex, variants):
                 probs.append(f"{name}: {p}")
@@ -195,9 +196,11 @@ def zoo_job(seed):
             fresh, _ = zoo_build(pp, seed)  # stateful helpers (match_previous_*, IndentedBlock, transform_string): fresh object per input
         except Exception:
             break
-        k, probs, to = total_on(pp, fresh, s, timeout=1.5)
+        k, probs, to = total_on(pp, fresh, s, timeout=1.0)
         n += k
         tos += to
+        if tos >= 2:
+            break
         if probs:
             bad.append({"stream": "zoo", "zoo_seed": seed, "desc": desc, "str": str(expr)[:120], "input": s, "problems": probs[:4]})
     return n, bad, tos, desc
